@@ -8,6 +8,7 @@ import Driver.C07
 import Driver.C08
 import Driver.C06
 import Driver.C03
+import Driver.C14
 open Driver
 
 def dispatch (id : String) (toks : List String) (impl : String) : Verdict :=
@@ -21,6 +22,7 @@ def dispatch (id : String) (toks : List String) (impl : String) : Verdict :=
   | "C08" => Driver.C08.handle toks impl
   | "C06" => Driver.C06.handle toks impl
   | "C03" => Driver.C03.handle toks impl
+  | "C14" => Driver.C14.handle toks impl
   | _ => badOp "unknown property"
 
 /-- Split `line` at the first occurrence of " => ". -/
